@@ -51,6 +51,10 @@ pub fn load_incircuit(
                 .flat_map(|value| value.transpose_vec(n))
                 .collect();
             let assigned = std_lib.assign_many(layouter, &concatenated)?;
+            // `chunks` panics on a zero chunk size; values of type Bytes(0) carry no byte.
+            if n == 0 {
+                return Ok(vec![CircuitValue::Bytes(vec![]); values.len()]);
+            }
             Ok(assigned.chunks(n).map(|chunk| CircuitValue::Bytes(chunk.to_vec())).collect())
         }
 
